@@ -1,4 +1,5 @@
 import Pxv.Lemmas.SessionStrict
+import Pxv.Lemmas.SessionCarry
 /-!
 C11 — session state carries over from one request to the next, exactly.
 
@@ -108,6 +109,151 @@ theorem no_panic (cfg : Config) (reqs : List (Req κ ν)) :
   rw [refines_every_history]
   exact Spec.runHistory_no_panic cfg true reqs Client.init SWorld.init
 
+
+/-- **C11 (carry-over, in plain terms)**: if a request ends by handing out the session cookie
+    `(id, c)`, then the next request that presents this cookie reads, for every key, exactly the
+    server-side value and the client-side value the previous request ended with — whatever
+    operations produced them, under every configuration, whatever the TTL reports. -/
+theorem carry_over (cfg : Config) (rem rem' : Nat) (s s' : Sess κ ν) (w w' : World κ ν) (id : Nat) (c : Map κ ν)
+    (h : Inv s w) (hf : finalizeSession cfg s w = (.set id c, s', w')) (k : κ) :
+    (getRaw cfg rem' k (newSession (some (id, c)) w').1 (newSession (some (id, c)) w').2).1 = (getRaw cfg rem k s w).1 ∧
+    clientGet k (newSession (some (id, c)) w').1 = clientGet k s := by
+  obtain ⟨hs, hinv, hid, hc⟩ := finalize_set_sync cfg s s' w w' id c (finalizeSession_set cfg s s' w w' id c hf)
+  obtain ⟨hfl, hI'⟩ := sync_ok_flush cfg s s' w w' h hs
+  obtain ⟨_, g2, g3⟩ := sync_ok_fields cfg s s' w w' hs
+  have hlt : id < w'.nextId := by rw [hid]; exact hI'.newLt
+  have hnext := Inv_incoming id c w' hI'.storeLt hlt
+  constructor
+  · rw [getRaw_eq_specGet cfg rem' k _ _ hnext, getRaw_eq_specGet cfg rem k s w h]
+    have := flush_carry cfg k (abs s) (abs s') (absW w) (absW w') c (SInv_of_Inv s w h) hfl hinv
+    rw [← this, hid]
+    rfl
+  · have e1 : s.invalidated = false := by rw [← g2]; exact hinv
+    simp [clientGet, newSession, e1, Cli.state, hc, g3]
+
+/-- **C11 (cycle_id)**: after `cycle_id()` and a successful sync the state is reachable only under
+    the new id: nothing is left under the old id, the session now goes by the new id, and the
+    record stored under the new id is the session's server state. -/
+theorem cycle_only_new_id (cfg : Config) (s s' : Sess κ ν) (w w' : World κ ν) (old new : Nat) (h : Inv s w)
+    (hid : s.id = .toBeRenamed old new) (hs : sync cfg s w = (.ok, s', w')) :
+    s'.id = .existing new ∧ old ≠ new ∧ Map.lookup w'.store old = none ∧
+    (∀ m, viewSrv s.server = .present m → (Map.lookup w'.store new).map (·.state) = some m) ∧
+    (s.server = none → (Map.lookup w'.store new).map (·.state) = (Map.lookup w.store old).map (·.state)) := by
+  obtain ⟨hfl, hI'⟩ := sync_ok_flush cfg s s' w w' h hs
+  obtain ⟨A, B, C, D⟩ := SInv_of_Inv s w h
+  have hne := (h.renamedFresh old new hid).2
+  have hnew := (h.renamedFresh old new hid).1
+  have hne' : ¬ new = old := fun e => hne e.symm
+  have none_iff : ∀ (w0 : World κ ν) (i : Nat), (absW w0).recs i = none → Map.lookup w0.store i = none := by
+    intro w0 i hh
+    simp only [absW_recs] at hh
+    cases hl : Map.lookup w0.store i <;> simp_all
+  obtain ⟨id, server, client, inval⟩ := s
+  simp only at hid
+  subst hid
+  cases server with
+  | none =>
+    cases hr : (absW w).recs old with
+    | none => simp [flush, abs, viewSrv, hr] at hfl
+    | some m =>
+      simp [flush, abs, viewSrv, hr] at hfl
+      obtain ⟨e1, e2⟩ := hfl
+      have e1' := e1.1
+      refine ⟨e1'.symm, hne, none_iff w' old ?_, by simp [viewSrv], ?_⟩
+      · rw [← e2]; simp [SWorld.set, hne, hne']
+      · intro _
+        have := absW_recs w' new
+        rw [← e2] at this
+        simp [SWorld.set] at this
+        rw [← this, ← absW_recs w old, hr]
+  | some sv =>
+    cases sv with
+    | unchanged st t =>
+      simp [flush, abs, viewSrv, CurId.newId, CurId.oldId, SWorld.unset] at hfl
+      obtain ⟨e1, e2⟩ := hfl
+      have e1' := e1.1
+      refine ⟨e1'.symm, hne, none_iff w' old ?_, ?_, by simp⟩
+      · rw [← e2]; simp [SWorld.set, hne, hne']
+      · intro m hm
+        simp [viewSrv] at hm
+        subst hm
+        have := absW_recs w' new
+        rw [← e2] at this
+        simp [SWorld.set] at this
+        exact this.symm
+    | changed st =>
+      simp [flush, abs, viewSrv, CurId.newId, CurId.oldId, SWorld.unset] at hfl
+      obtain ⟨e1, e2⟩ := hfl
+      have e1' := e1.1
+      refine ⟨e1'.symm, hne, none_iff w' old ?_, ?_, by simp⟩
+      · rw [← e2]; simp [SWorld.set, hne, hne']
+      · intro m hm
+        simp [viewSrv] at hm
+        subst hm
+        have := absW_recs w' new
+        rw [← e2] at this
+        simp [SWorld.set] at this
+        exact this.symm
+    | doesNotExist =>
+      have hold : (absW w).recs old = none := A rfl old rfl
+      cases hcr : cfg.creation with
+      | neverSkip =>
+        simp [flush, abs, viewSrv, hcr, CurId.newId, CurId.oldId] at hfl
+        obtain ⟨e1, e2⟩ := hfl
+        have e1' := e1.1
+        refine ⟨e1'.symm, hne, none_iff w' old ?_, by simp [viewSrv], by simp⟩
+        rw [← e2]; simp [SWorld.set, hne, hne', hold]
+      | skipIfEmpty =>
+        simp [flush, abs, viewSrv, hcr, normId, CurId.newId, CurId.oldId] at hfl
+        obtain ⟨e1, e2⟩ := hfl
+        have e1' := e1.1
+        refine ⟨e1'.symm, hne, none_iff w' old ?_, by simp [viewSrv], by simp⟩
+        rw [← e2]; exact hold
+    | markedForDeletion =>
+      simp [flush, abs, viewSrv, normId, CurId.newId, CurId.oldId, SWorld.unset] at hfl
+      obtain ⟨e1, e2⟩ := hfl
+      have e1' := e1.1
+      refine ⟨e1'.symm, hne, none_iff w' old ?_, by simp [viewSrv], by simp⟩
+      rw [← e2]; simp [SWorld.set]
+
+/-- **C11 (invalidate)**: finalising an invalidated session hands the client a removal cookie exactly
+    if the client had a session (otherwise nothing), and leaves no record behind, neither under the
+    old nor under the new id. -/
+theorem invalidate_removes (cfg : Config) (s s' : Sess κ ν) (w w' : World κ ν) (f : Fin κ ν) (h : Inv s w)
+    (hinv : s.invalidated = true) (hf : finalize cfg s w = (f, s', w')) :
+    ((f = .removal ∧ s.id.oldId.isSome = true) ∨ (f = .none ∧ s.id.oldId = none)) ∧
+    (∀ o, s.id.oldId = some o → Map.lookup w'.store o = none) ∧
+    Map.lookup w'.store s.id.newId = none := by
+  have hm := h.invOk hinv
+  obtain ⟨id, server, client, inval⟩ := s
+  simp only at hinv hm
+  subst hinv hm
+  cases id with
+  | newlyGenerated n =>
+    have hn := (h.newFresh n rfl).1
+    simp [finalize, sync, syncStore, syncServer, syncId, CurId.oldId, CurId.newId] at hf
+    obtain ⟨e1, e2, e3⟩ := hf
+    subst e1 e3
+    simp [CurId.oldId, CurId.newId, hn]
+  | existing o =>
+    cases hl : Map.lookup w.store o <;>
+      simp [finalize, sync, syncStore, stDelete, hl, syncServer, syncId, CurId.oldId, CurId.newId] at hf <;>
+      obtain ⟨e1, e2, e3⟩ := hf <;> subst e1 e3 <;>
+      simp [CurId.oldId, CurId.newId, hl, Map.lookup_erase]
+  | toBeRenamed o n =>
+    have hn := (h.renamedFresh o n rfl).1
+    have hne := (h.renamedFresh o n rfl).2
+    cases hl : Map.lookup w.store o <;>
+      simp [finalize, sync, syncStore, stDelete, hl, syncServer, syncId, CurId.oldId, CurId.newId] at hf <;>
+      obtain ⟨e1, e2, e3⟩ := hf <;> subst e1 e3 <;>
+      simp [CurId.oldId, CurId.newId, hl, hn, hne, Map.lookup_erase]
+
+/-- ... and a cookie whose id has no record yields no server-side state, under either policy
+    (the old cookie after `invalidate()`, after `cycle_id()`, after `delete()`). -/
+theorem cookie_without_record_yields_nothing (cfg : Config) (rem : Nat) (id : Nat) (c : Map κ ν) (k : κ) (w : World κ ν)
+    (hl : Map.lookup w.store id = none) :
+    (getRaw cfg rem k (newSession (some (id, c)) w).1 (newSession (some (id, c)) w).2).1 = .val none := by
+  cases hm : cfg.missing <;> simp [getRaw, newSession, forceLoad, CurId.oldId, stLoad, hl, hm]
 
 /-! ### The recorded finding, and concrete instances (non-vacuity) -/
 
